@@ -95,6 +95,15 @@ def strategy_(draw, tier):
         off = draw(st.sampled_from([0, 0, 95, 9990, 99999995]))
         for n in c["ref"]:
             g["nodes"][n]["so"] += off
+    if draw(st.integers(0, 5)) == 0:
+        # a haplotype segment whose contig name is a proper prefix of the chromosome name (chr1 inside chr10, GRCh38 inside
+        # GRCh38#0#chr1): names are compared as whole strings
+        c = draw(st.sampled_from(b.chroms))
+        haps_ = [n for n in c["nodes"] if g["nodes"][n]["sr"] != 0]
+        short = c["name"][:-1]
+        if haps_ and short and short not in names and not any(d_["sn"] == short for d_ in g["nodes"].values()):
+            n_ = draw(st.sampled_from(haps_))
+            g["nodes"][n_]["sn"], g["nodes"][n_]["so"], g["nodes"][n_]["sr"] = short, 0, 1
     keys = list(names)
     if draw(st.integers(0, 4)) == 0:
         # a component in which one haplotype contig has more segments than the reference: order_gfa names it after that
